@@ -4,30 +4,160 @@
 //! configured max_delay / max_lateness is a `Duration`; the code works with `d.as_millis() as u64` (model: `C13.durMillisU64`).
 //! ev := <ts> | <ts>@<now>: `now` is the reading (ms) of the generator's processing-time clock when the event is
 //! offered (hook `watermark::verif_clock`, cfg rre_verif; default 0; the stream is created at reading 0).
+//! Every ev may end in a DECORATION `#<src>.<typ>.<pay>.<ids>.<seq>.<tag>` (indices into the tables SOURCES / TYPES / payload /
+//! id style / sequence number / tags below; missing trailing fields = 0; no `#` = all 0 = the event every older case offers): the
+//! fields of a StreamEvent the watermark logic must IGNORE (`metadata.source`, `event_type`, `data`, the text of `id`,
+//! `metadata.sequence`, `metadata.tags`). The Lean driver drops the decoration (the model is a function of id position, timestamp
+//! and clock reading only), the oracle is unchanged: whatever the decoration, the observations must satisfy `C13.runOk`.
 //! obs  := step;step;…  step := wm/hist/events/side/late,dropped,allowed,sidecount
 use rre_harness::*;
 use rust_rule_engine::streaming::event::StreamEvent;
 use rust_rule_engine::streaming::watermark::*;
+use rust_rule_engine::types::Value;
 use std::collections::HashMap;
 use std::time::Duration;
 
-fn parse_evs(s: &str) -> Option<Vec<(u64, u64)>> {
+/// (timestamp, clock reading, decoration)
+type Evt = (u64, u64, [u64; 6]);
+
+fn parse_evs(s: &str) -> Option<Vec<Evt>> {
     if s == "-" {
         return Some(vec![]);
     }
     s.split(',')
-        .map(|t| match t.split_once('@') {
-            Some((a, b)) => Some((a.parse().ok()?, b.parse().ok()?)),
-            None => Some((t.parse().ok()?, 0)),
+        .map(|t| {
+            let (t, deco) = match t.split_once('#') {
+                Some((a, d)) => {
+                    let mut deco = [0u64; 6];
+                    let parts: Vec<&str> = d.split('.').collect();
+                    if parts.len() > 6 {
+                        return None;
+                    }
+                    for (i, p) in parts.iter().enumerate() {
+                        deco[i] = p.parse().ok()?;
+                    }
+                    (a, deco)
+                }
+                None => (t, [0u64; 6]),
+            };
+            match t.split_once('@') {
+                Some((a, b)) => Some((a.parse().ok()?, b.parse().ok()?, deco)),
+                None => Some((t.parse().ok()?, 0, deco)),
+            }
         })
         .collect()
 }
 
-fn join_evs(v: &[(u64, u64)]) -> String {
+fn join_evs(v: &[Evt]) -> String {
     if v.is_empty() {
         return "-".into();
     }
-    v.iter().map(|(t, n)| if *n == 0 { t.to_string() } else { format!("{}@{}", t, n) }).collect::<Vec<_>>().join(",")
+    v.iter()
+        .map(|(t, n, d)| {
+            let mut s = if *n == 0 { t.to_string() } else { format!("{}@{}", t, n) };
+            if d.iter().any(|x| *x != 0) {
+                let last = d.iter().rposition(|x| *x != 0).unwrap();
+                s.push('#');
+                s.push_str(&d[..=last].iter().map(|x| x.to_string()).collect::<Vec<_>>().join("."));
+            }
+            s
+        })
+        .collect::<Vec<_>>()
+        .join(",")
+}
+
+/// `metadata.source` values: index 0 is the source of every undecorated event; the empty string, look-alikes (case, trailing
+/// blank), a long one
+const SOURCES: [&str; 8] = ["h", "", "gw-a", "gw-b", "H", "h ", "sensor/1/\u{e9}", "0"];
+/// `event_type` values (0 = undecorated)
+const TYPES: [&str; 6] = ["E", "", "Watermark", "late", "e", "E "];
+const N_PAY: u64 = 8;
+const N_IDS: u64 = 6;
+const N_SEQ: u64 = 5;
+const N_TAG: u64 = 4;
+
+/// payload `data` of an event: 0 empty; 1..3 a field called "timestamp" whose value is NOT the event's timestamp (integer far
+/// ahead / behind, float, string); 4 fields named after the other metadata; 5 large (300 fields); 6 nested / Null values;
+/// 7 "timestamp" = u64::MAX as i64 bits / negative
+fn payload(k: u64, ts: u64, i: usize) -> HashMap<String, Value> {
+    let mut m = HashMap::new();
+    match k {
+        0 => {}
+        1 => {
+            m.insert("timestamp".to_string(), Value::Integer((ts as i64).wrapping_add(1000)));
+        }
+        2 => {
+            m.insert("timestamp".to_string(), Value::Integer(0));
+            m.insert("event_time".to_string(), Value::Number(ts as f64 * 2.0 + 0.5));
+        }
+        3 => {
+            m.insert("timestamp".to_string(), Value::String((ts / 2).to_string()));
+            m.insert("ts".to_string(), Value::String("1".into()));
+        }
+        4 => {
+            m.insert("source".to_string(), Value::String(format!("other-{}", i)));
+            m.insert("id".to_string(), Value::String("0".into()));
+            m.insert("watermark".to_string(), Value::Integer(i64::MAX));
+            m.insert("sequence".to_string(), Value::Integer(i as i64));
+            m.insert("late".to_string(), Value::Boolean(true));
+        }
+        5 => {
+            for j in 0..300 {
+                m.insert(format!("f{}", j), Value::Integer(j as i64 * 7 + i as i64));
+            }
+            m.insert("blob".to_string(), Value::String("x".repeat(4096)));
+        }
+        6 => {
+            m.insert("timestamp".to_string(), Value::Null);
+            m.insert("nested".to_string(), Value::Array(vec![Value::Integer(ts as i64), Value::Null, Value::String(String::new())]));
+            m.insert(String::new(), Value::Boolean(false));
+        }
+        _ => {
+            m.insert("timestamp".to_string(), Value::Integer(-1));
+            m.insert("metadata.timestamp".to_string(), Value::Integer(i64::MIN));
+            m.insert("max_timestamp".to_string(), Value::Number(f64::NAN));
+        }
+    }
+    m
+}
+
+/// the TEXT of the caller-assigned id of the event at position `i` (every style is injective in `i`, and two styles give the same
+/// text only for the same `i`, so ids stay unique within a case): plain, zero padded, timestamp first, long, source first,
+/// empty string for position 0
+fn id_text(style: u64, i: usize, ts: u64, src: &str) -> String {
+    match style {
+        0 => i.to_string(),
+        1 => format!("evt_{:08}", i),
+        2 => format!("{}-{}", ts, i),
+        3 => format!("{}{}", "ab".repeat(200), i),
+        4 => format!("{}:{}", src, i),
+        _ => {
+            if i == 0 {
+                String::new()
+            } else {
+                format!("#{}", i)
+            }
+        }
+    }
+}
+
+fn seq_of(k: u64, i: usize, ts: u64) -> u64 {
+    match k {
+        0 => 0,
+        1 => i as u64 + 1,
+        2 => 1000 - (i as u64).min(1000),
+        3 => u64::MAX,
+        _ => ts.wrapping_mul(3),
+    }
+}
+
+fn tags_of(k: u64, ts: u64) -> Vec<(String, String)> {
+    match k {
+        0 => vec![],
+        1 => vec![("timestamp".into(), ts.wrapping_add(7).to_string()), ("source".into(), "tagged".into())],
+        2 => vec![("late".into(), "true".into()), ("watermark".into(), "0".into())],
+        _ => vec![("".into(), "".into()), ("allowed_lateness".into(), u64::MAX.to_string())],
+    }
 }
 
 /// `<ms>` | `<secs>s<nanos>` | `MAX`
@@ -44,7 +174,7 @@ fn parse_dur(s: &str) -> Option<Duration> {
     }
 }
 
-fn parse_case(case: &str) -> Option<(WatermarkStrategy, LateDataStrategy, Vec<(u64, u64)>)> {
+fn parse_case(case: &str) -> Option<(WatermarkStrategy, LateDataStrategy, Vec<Evt>)> {
     let t: Vec<&str> = case.split_whitespace().collect();
     if t.len() != 3 {
         return None;
@@ -72,8 +202,9 @@ fn parse_case(case: &str) -> Option<(WatermarkStrategy, LateDataStrategy, Vec<(u
     Some((w, l, parse_evs(t[2])?))
 }
 
-fn ids(evs: &[StreamEvent]) -> String {
-    join_nums(&evs.iter().map(|e| e.id.clone()).collect::<Vec<_>>())
+/// the events as their positions in the case (looked up by the text of their id; an id the case never offered prints `?`)
+fn ids(evs: &[StreamEvent], pos: &HashMap<String, usize>) -> String {
+    join_nums(&evs.iter().map(|e| pos.get(&e.id).map(|p| p.to_string()).unwrap_or_else(|| "?".into())).collect::<Vec<_>>())
 }
 
 fn exec(case: &str) -> String {
@@ -81,10 +212,24 @@ fn exec(case: &str) -> String {
     verif_clock::set(Some(0));
     let mut s = WatermarkedStream::new(w, l);
     let mut steps = Vec::new();
-    for (i, (t, now)) in ts.iter().enumerate() {
+    let mut pos: HashMap<String, usize> = HashMap::new();
+    for (i, (t, _, d)) in ts.iter().enumerate() {
+        if d[0] >= SOURCES.len() as u64 || d[1] >= TYPES.len() as u64 || d[2] >= N_PAY || d[3] >= N_IDS || d[4] >= N_SEQ || d[5] >= N_TAG {
+            return "bad-case".into();
+        }
+        if pos.insert(id_text(d[3], i, *t, SOURCES[d[0] as usize]), i).is_some() {
+            return "bad-case".into();
+        }
+    }
+    for (i, (t, now, d)) in ts.iter().enumerate() {
         verif_clock::set(Some(*now));
-        let mut e = StreamEvent::with_timestamp("E", HashMap::new(), "h", *t);
-        e.id = i.to_string();
+        let src = SOURCES[d[0] as usize];
+        let mut e = StreamEvent::with_timestamp(TYPES[d[1] as usize], payload(d[2], *t, i), src, *t);
+        e.id = id_text(d[3], i, *t, src);
+        e.metadata.sequence = seq_of(d[4], i, *t);
+        for (k, v) in tags_of(d[5], *t) {
+            e.add_tag(k, v);
+        }
         if s.add_event(e).is_err() {
             return "err".into();
         }
@@ -93,8 +238,8 @@ fn exec(case: &str) -> String {
             "{}/{}/{}/{}/{},{},{},{}",
             s.current_watermark().timestamp,
             join_nums(&s.watermark_history().iter().map(|w| w.timestamp).collect::<Vec<_>>()),
-            ids(s.events()),
-            ids(s.side_output()),
+            ids(s.events(), &pos),
+            ids(s.side_output(), &pos),
             st.total_late,
             st.dropped,
             st.allowed,
@@ -247,7 +392,7 @@ fn gen(rng: &mut Rng, n: usize, tier: &str) -> Vec<String> {
                 6 => now + rng.range(10, 60),
                 _ => now + rng.below(iv.min(30) + 2),
             };
-            evs.push((rng.below(dom), now));
+            evs.push((rng.below(dom), now, [0u64; 6]));
         }
         if k % 5 == 0 {
             // ascending timestamps: every emission moves the watermark
@@ -285,7 +430,107 @@ fn gen(rng: &mut Rng, n: usize, tier: &str) -> Vec<String> {
         out.push(format!("B{} {} {}", d, l, join_nums(&ts)));
     }
     dur_family(rng, n, &mut out);
+    deco_family(rng, n, tier, &mut out);
     out
+}
+
+/// DECORATED events: the same timestamp sequences, offered as events that differ in the fields the watermark logic must ignore.
+/// (a) exhaustive: every timestamp sequence of length <= 3 over 0..3 with every assignment of 3 sources (one of them the empty string)
+///     to its events, under ascending / bounded 0,1,2 / periodic-0 watermarks and drop / allowed / side output;
+/// (b) a sample of ALL the cases generated so far (every family: random, long, extreme timestamps, periodic clock, durations),
+///     re-offered under one decoration mode: 2..4 sources dealt at random / alternating / one straggler / one source per event;
+///     event types; payloads (empty, large, a "timestamp" field with another value, Null, NaN); id texts; sequence numbers;
+///     tags; or everything at once.
+fn deco_family(rng: &mut Rng, n: usize, tier: &str, out: &mut Vec<String>) {
+    let k = if tier == "thorough" { 4usize } else { 3 };
+    let mut seqs: Vec<Vec<u64>> = vec![];
+    let mut frontier: Vec<Vec<u64>> = vec![vec![]];
+    for _ in 0..k {
+        let mut next = Vec::new();
+        for s in &frontier {
+            for t in 0..3u64 {
+                let mut s2 = s.clone();
+                s2.push(t);
+                next.push(s2);
+            }
+        }
+        seqs.extend(next.iter().cloned());
+        frontier = next;
+    }
+    let srcs = [0u64, 1, 2];
+    for s in &seqs {
+        let mut asg = vec![0usize; s.len()];
+        loop {
+            let evs: Vec<Evt> = s.iter().zip(&asg).map(|(t, a)| (*t, 0, [srcs[*a], 0, 0, 0, 0, 0])).collect();
+            for w in ["M", "B0", "B1", "B2", "P0"] {
+                for l in ["D", "A1", "S"] {
+                    out.push(format!("{} {} {}", w, l, join_evs(&evs)));
+                }
+            }
+            let mut i = 0;
+            while i < asg.len() {
+                asg[i] += 1;
+                if asg[i] < srcs.len() {
+                    break;
+                }
+                asg[i] = 0;
+                i += 1;
+            }
+            if i == asg.len() {
+                break;
+            }
+        }
+    }
+    let base = out.len();
+    for _ in 0..(n * 2).max(2000) {
+        let c = out[rng.below(base as u64) as usize].clone();
+        let t: Vec<&str> = c.split_whitespace().collect();
+        if t.len() != 3 {
+            continue;
+        }
+        let Some(mut evs) = parse_evs(t[2]) else { continue };
+        if evs.is_empty() {
+            continue;
+        }
+        // the pool of sources of this case: 2..4 distinct values (the empty string in half of the pools)
+        let mut pool: Vec<u64> = (0..SOURCES.len() as u64).collect();
+        for i in (1..pool.len()).rev() {
+            pool.swap(i, rng.below(i as u64 + 1) as usize);
+        }
+        pool.truncate(rng.range(2, 4) as usize);
+        if rng.chance(1, 2) && !pool.contains(&1) {
+            pool[0] = 1;
+        }
+        let mode = rng.below(10);
+        let straggler = rng.below(evs.len() as u64) as usize;
+        for (i, e) in evs.iter_mut().enumerate() {
+            let src = match rng.below(4) {
+                _ if mode > 5 && mode != 9 => e.2[0],
+                _ if mode == 0 => *rng.pick(&pool),
+                _ if mode == 1 => pool[i % pool.len()],
+                _ if mode == 2 => if i == straggler { pool[1] } else { pool[0] },
+                _ if mode == 3 => (i as u64) % SOURCES.len() as u64,
+                // mode 4 / 5 / 9: mostly one source, another now and then
+                0 => *rng.pick(&pool),
+                _ => pool[0],
+            };
+            e.2[0] = src;
+            if mode == 5 || mode == 9 {
+                e.2[1] = rng.below(TYPES.len() as u64);
+            }
+            if mode == 6 || mode == 9 {
+                e.2[2] = rng.below(N_PAY);
+            }
+            if mode == 7 || mode == 9 {
+                e.2[3] = rng.below(N_IDS);
+            }
+            if mode == 8 || mode == 9 {
+                e.2[4] = rng.below(N_SEQ);
+                e.2[5] = rng.below(N_TAG);
+            }
+        }
+        out.push(format!("{} {} {}", t[0], t[1], join_evs(&evs)));
+    }
 }
 
 /// configured durations that are NOT a whole number of milliseconds below 2^64: `Duration::MAX` (the idiom for "no limit"),
@@ -341,7 +586,7 @@ fn shrink(case: &str) -> Vec<String> {
     if t.len() != 3 {
         return vec![];
     }
-    let ts: Vec<(u64, u64)> = parse_evs(t[2]).unwrap_or_default();
+    let ts: Vec<Evt> = parse_evs(t[2]).unwrap_or_default();
     let mut out: Vec<String> = shrink_list(&ts)
         .into_iter()
         .map(|v| format!("{} {} {}", t[0], t[1], join_evs(&v)))
@@ -359,6 +604,33 @@ fn shrink(case: &str) -> Vec<String> {
             let mut v = ts.clone();
             v[i].1 = 0;
             out.push(format!("{} {} {}", t[0], t[1], join_evs(&v)));
+        }
+    }
+    // decorations: drop them all, drop one field everywhere, drop one event's, move one event to the next smaller index
+    if ts.iter().any(|e| e.2 != [0u64; 6]) {
+        let mut v = ts.clone();
+        v.iter_mut().for_each(|e| e.2 = [0; 6]);
+        out.push(format!("{} {} {}", t[0], t[1], join_evs(&v)));
+        for f in 0..6 {
+            if ts.iter().any(|e| e.2[f] != 0) {
+                let mut v = ts.clone();
+                v.iter_mut().for_each(|e| e.2[f] = 0);
+                out.push(format!("{} {} {}", t[0], t[1], join_evs(&v)));
+            }
+        }
+        for i in 0..ts.len() {
+            if ts[i].2 != [0u64; 6] {
+                let mut v = ts.clone();
+                v[i].2 = [0; 6];
+                out.push(format!("{} {} {}", t[0], t[1], join_evs(&v)));
+                for f in 0..6 {
+                    if ts[i].2[f] > 0 {
+                        let mut v = ts.clone();
+                        v[i].2[f] -= 1;
+                        out.push(format!("{} {} {}", t[0], t[1], join_evs(&v)));
+                    }
+                }
+            }
         }
     }
     out
